@@ -34,11 +34,17 @@ def gen_case(rng, allow_null=True):
     rng.shuffle(targets)
     first, second = rng.choice([('a', 'b'), ('b', 'a')])
     byname = rng.random() < 0.5
-    return {'cols': cols, 'rows': rows, 'targets': targets, 'first': first, 'second': second, 'byname': byname}
+    order = ''
+    if rng.random() < 0.4:
+        ks = []
+        for _ in range(rng.randint(1, 3)):
+            ks.append(f'{rng.randint(1, len(targets))}{rng.choice(["", " DESC", " ASC"])}')
+        order = ' ORDER BY ' + ', '.join(ks)
+    return {'cols': cols, 'rows': rows, 'targets': targets, 'first': first, 'second': second, 'byname': byname, 'order': order}
 
 
 def base_statement(c):
-    return f'SELECT {", ".join(c["targets"])} FROM #t GROUP BY a, b'
+    return f'SELECT {", ".join(c["targets"])} FROM #t GROUP BY a, b' + c.get('order', '')
 
 
 def statement(c):
